@@ -24,17 +24,49 @@ class Deadlock(Exception):
     pass
 
 
+CURRENT = [None]  # the Execution that is running (locks created by the library outlive one execution)
+
+
+class ThreadingProxy:
+    """Stands in for the `threading` module inside the library's modules: locks the library creates
+    while it runs (per-object locks) are cooperative locks too."""
+
+    def __init__(self, real):
+        self._real = real
+        self._n = 0
+
+    def __getattr__(self, name):
+        return getattr(self._real, name)
+
+    def _make(self, kind):
+        self._n += 1
+        return CoopLock(None, f"{kind}#{self._n} created by the library")
+
+    def Lock(self):
+        return self._make("Lock")
+
+    def RLock(self):
+        return self._make("RLock")
+
+
 class CoopLock:
     """Re-entrant cooperative lock driven by the scheduler."""
 
     def __init__(self, sched, name):
-        self.sched = sched
+        self._sched = sched
         self.name = name
         self.owner = None
         self.depth = 0
 
+    @property
+    def sched(self):
+        return CURRENT[0] if CURRENT[0] is not None else self._sched
+
     def acquire(self, blocking=True, timeout=-1):
         s = self.sched
+        if s is None:
+            self.owner, self.depth = "outside", self.depth + 1
+            return True
         tid = s.current_tid()
         if tid is None:  # not one of the scheduled threads (setup / teardown code)
             self.owner, self.depth = "outside", self.depth + 1
@@ -48,9 +80,11 @@ class CoopLock:
 
     def release(self):
         self.depth -= 1
-        if self.depth == 0:
+        if self.depth <= 0:
+            self.depth = 0
             self.owner = None
-            self.sched.unblock(self)
+            if self.sched is not None:
+                self.sched.unblock(self)
 
     __enter__ = acquire
 
@@ -217,6 +251,13 @@ class Execution:
             self.finished.release()
 
     def run(self, first=0, timeout=60):
+        CURRENT[0] = self
+        try:
+            return self._run(first, timeout)
+        finally:
+            CURRENT[0] = None
+
+    def _run(self, first=0, timeout=60):
         threads = [threading.Thread(target=self._thread_main, args=(t,), daemon=True) for t in range(self.n)]
         for th in threads:
             th.start()
